@@ -15,6 +15,9 @@ package main
 //   result  = stats=[stat;;stat...] lines=[n,n] errs=[<line>:<errtype>:<needkind>:<hex errstr>:<startcol>:<endcol>;...]
 import (
 	"fmt"
+	"io/ioutil"
+	"os"
+	"path/filepath"
 	"strconv"
 	"strings"
 
@@ -315,4 +318,152 @@ func init() {
 		}
 		return c16h(printed) + " " + c16Norm(ts2.ListType[0]) + " " + c16h(ts2.Comment)
 	})
+}
+
+// ---------------------------------------------------------------- c16.server
+// "a malformed line never disturbs the neighbouring annotations" at the level of the REAL server, under settings
+// that show / do not show the annotation warnings (type 18).
+// case: <setting> <kind> <hex line>,<hex line>,...     lines = the comment block (text after the leading "--")
+//   setting  on (CheckAnnotateType=true, AllEnable=true) | off (CheckAnnotateType=false) | alloff (AllEnable=false)
+//            | none (no initializationOptions) | json18 (luahelper.json IgnoreErrorTypes [18]) | jsonwarn0 (ShowWarnFlag 0)
+//   kind     T  block above `local v = nil`            (hover v, completion after `v.`)
+//            P  block above `local function fn(a)`     (completion after `a.` in the body and after `r.`, r = fn(); hover fn)
+//            C  block, blank, `---@type Node`, `local w = nil`   (completion after `w.`, hover w)
+// Run A = the block as given; run B = every line that is malformed ON ITS OWN (ParseCommentFragment of the single line
+// reports an error) replaced by the remark `-- remark`.  Answer "=" when all probes answer the same in A and B (and
+// "= <answers>" is never printed: the answers are in the DIFF line only), otherwise "DIFF A[...] B[...]".
+var c16SrvCur *c15Child
+
+func c16ServerRun(setting, kind string, lines []string) (string, error) {
+	pre := []string{"---@class Leaf", "---@field alpha number", "---@field beta string", ""}
+	text := append([]string{}, pre...)
+	for _, l := range lines {
+		text = append(text, "--"+l)
+	}
+	type probe struct {
+		hover    bool
+		line, ch int
+	}
+	probes := []probe{}
+	at := func(hover bool, t, marker string) {
+		text = append(text, t)
+		probes = append(probes, probe{hover, len(text) - 1, strings.Index(t, marker) + len(marker)})
+	}
+	switch kind {
+	case "T":
+		at(true, "local v = nil", "local ")
+		at(false, "print(v.zq0)", "v.")
+	case "P":
+		at(true, "local function fn(a)", "function ")
+		at(false, "  print(a.zq0)", "a.")
+		text = append(text, "  return a", "end", "local r = fn()")
+		at(false, "print(r.zq1)", "r.")
+	case "C":
+		text = append(text, "", "---@type Node")
+		at(true, "local w = nil", "local ")
+		at(false, "print(w.zq0)", "w.")
+	default:
+		return "", fmt.Errorf("kind")
+	}
+	src := strings.Join(text, "\n") + "\n"
+
+	root, err := ioutil.TempDir("", "c16w-")
+	if err != nil {
+		return "", err
+	}
+	defer os.RemoveAll(root)
+	root, _ = filepath.EvalSymlinks(root)
+	if err := ioutil.WriteFile(filepath.Join(root, "m.lua"), []byte(src), 0644); err != nil {
+		return "", err
+	}
+	opts := map[string]interface{}{"client": "vsc", "LocalRun": true, "AllEnable": true, "CheckSyntax": true,
+		"CheckAnnotateType": true}
+	switch setting {
+	case "on":
+	case "off":
+		opts["CheckAnnotateType"] = false
+	case "alloff":
+		opts["AllEnable"] = false
+	case "none":
+		opts = nil
+	case "json18", "jsonwarn0":
+		opts["LocalRun"] = false
+		js := `{"ShowWarnFlag":1,"IgnoreErrorTypes":[18]}`
+		if setting == "jsonwarn0" {
+			js = `{"ShowWarnFlag":0}`
+		}
+		if err := ioutil.WriteFile(filepath.Join(root, "luahelper.json"), []byte(js), 0644); err != nil {
+			return "", err
+		}
+	default:
+		return "", fmt.Errorf("setting")
+	}
+	srv, err := c15StartOpts(root, opts)
+	if err != nil {
+		return "", err
+	}
+	defer srv.stop()
+	uri := "file://" + filepath.Join(root, "m.lua")
+	srv.didOpen(uri, src)
+	out := []string{}
+	for _, p := range probes {
+		if p.hover {
+			h, err := srv.hover(uri, p.line, p.ch)
+			if err != nil {
+				return "", err
+			}
+			// the first fenced block only (the declaration with its type); the rest repeats the comment text
+			h = strings.SplitN(h, "\n```", 2)[0]
+			out = append(out, "H:"+strings.NewReplacer("\n", "\\n", "\r", "\\r", " ", "_", "\t", "_").Replace(h))
+		} else {
+			ls, err := srv.complete(uri, p.line, p.ch)
+			if err != nil {
+				return "", err
+			}
+			out = append(out, "C:"+c15Labels(ls))
+		}
+	}
+	return strings.Join(out, ";"), nil
+}
+
+func c16ServerCase(line string) string {
+	f := strings.Fields(line)
+	if len(f) != 3 {
+		return "BAD-CASE fields"
+	}
+	a, b := []string{}, []string{}
+	bad := 0
+	for _, h := range strings.Split(f[2], ",") {
+		l := string(unhex(h))
+		if strings.ContainsAny(l, "\n\r") || strings.HasPrefix(l, "[") {
+			return "BAD-CASE line"
+		}
+		a = append(a, l)
+		if _, errs := c16Fragment(h); len(errs) > 0 {
+			bad++
+			b = append(b, " remark")
+		} else {
+			b = append(b, l)
+		}
+	}
+	if bad == 0 {
+		return "= nomalformed"
+	}
+	ra, err := c16ServerRun(f[0], f[1], a)
+	if err != nil {
+		return "ERR " + err.Error()
+	}
+	rb, err := c16ServerRun(f[0], f[1], b)
+	if err != nil {
+		return "ERR " + err.Error()
+	}
+	if ra == rb {
+		return "="
+	}
+	return "DIFF A[" + ra + "] B[" + rb + "]"
+}
+
+func init() {
+	register("c16.server", func(line string) string { return c15ParentOf(&c16SrvCur, "c16.srvchild", line) })
+	register("c16.srvchild", c16ServerCase)
 }
